@@ -271,6 +271,22 @@ class C03(PropertyCheck):
         for i in range(240 * scale):
             yield self._random_loss(rng, i, maxlen, cells, next_costs() if i % 4 else ("1", "1", "1"))
 
+        # loss with a target that is no class index (audit): cross_entropy raises IndexError ("Target ... is
+        # out of bounds"); the model must raise the same (C03_loss_rejects_class) instead of reading the
+        # log-probability at a clamped class. The first token of one reference is always a target of the empty
+        # prefix, so the error is certain.
+        for i in range(16 * scale):
+            c = self._random_loss(rng, i, min(maxlen, 4), cells, next_costs() if i % 4 else ("1", "1", "1"))
+            V, eos, ii = c["V"], c["eos"], c["ignore_index"]
+            bad = [t for t in (V, V + 1, V + 40, -1, -3, -101, 2 ** 40) if t != eos and t != ii]
+            n = rng.randrange(len(c["refs"]))
+            c["refs"][n][0] = rng.choice(bad)
+            c["oob"] = [n, c["refs"][n][0]]
+            c.pop("dead_class", None)
+            if c.get("logit_class") == "neg_inf_offtarget":
+                c["logit_class"] = "normal"
+            yield c
+
         # malformed stream ----------------------------------------------------------
         for i in range(12 * scale):
             yield {"kind": "malformed", "what": ["batch_mismatch", "ref_1d", "hyp_3d", "logits_2d",
@@ -607,6 +623,16 @@ class C03(PropertyCheck):
                 if lean != differ:
                     raise AssertionError(f"Lean rowAgree {sorted(lean)} != python comparison {sorted(differ)}")
             return out[:5]
+        if case["kind"] == "loss" and case.get("oob"):
+            # a listed target outside the class range: both must raise IndexError
+            me = model.get("error") if isinstance(model, dict) else None
+            ie_ = impl.get("error") if isinstance(impl, dict) else None
+            if me != "IndexError":
+                raise AssertionError(f"the model did not raise IndexError on an out-of-range target: {me}")
+            if ie_ != me:
+                return [f"out-of-range target {case['oob']}: implementation "
+                        f"{'raised ' + str(ie_) if ie_ else 'returned a value'}, model raised {me}"]
+            return []
         if case["kind"] == "loss":
             if "error" in model:
                 raise AssertionError(f"the model refuses an in-domain batch: {model['error']}")
@@ -677,6 +703,13 @@ class C03(PropertyCheck):
                 return [(f"empty batch: output shape {impl['shape']}, expected {want} + [*]",
                          "C03.targets.zero_batch_shape")]
             return []
+        if case.get("oob"):
+            # a reference token that is a target but no class index: the loss is undefined, the call must not
+            # return a number (cross_entropy's IndexError)
+            if isinstance(impl, dict) and "error" in impl:
+                return []
+            return [(f"loss: a target that is no class index ({case['oob'][1]}, V={case['V']}) was accepted "
+                     f"silently", "C03.loss.out_of_range_target_accepted")]
         if "error" in impl:
             if self._not_long(case):
                 return []  # the documentation asks for a long tensor
@@ -861,6 +894,8 @@ class C03(PropertyCheck):
             if any(len(self._strip(row, case["padding"])[0]) >= 2 for rows in impl["out"] for row in rows):
                 t.append("prefix_with_several_targets")
         if kind == "loss":
+            if case.get("oob"):
+                t.append("target_outside_class_range=" + ("negative" if case["oob"][1] < 0 else "at_or_above_V"))
             t.append("weight=" + ("yes" if case["weight"] is not None else "no"))
             t.append(f"logits_dtype={case.get('logits_dtype', 'float32')}")
             t.append(f"logit_layout={case.get('logit_layout', 'contig')}")
@@ -874,6 +909,17 @@ class C03(PropertyCheck):
         return t
 
     def shrink(self, case):
+        if case.get("oob"):
+            tok = case["oob"][1]
+            for c in self._shrink(case):
+                hit = [n for n, r in enumerate(c["refs"]) if r and r[0] == tok]
+                if hit:
+                    c["oob"] = [hit[0], tok]
+                    yield c
+            return
+        yield from self._shrink(case)
+
+    def _shrink(self, case):
         if case["kind"] not in ("targets", "loss"):
             return
         # first: hand the batch over in the plainest way
